@@ -7,7 +7,8 @@ Core D (C10) — executable model of `qib/operator/field_operator.py` (Mathlib-f
                       `Tensor.conjT` = `coeffs.conj().T` (all axes reversed), `Tensor.outer` =
                       `np.kron(a.reshape(-1), b.reshape(-1)).reshape(a.shape + b.shape)`.
 * `Term`            : `FieldOperatorTerm` (`Term.make` rejects `ndim != len(opdesc)`), `Term.adjoint`, `Term.mul`,
-                      `Term.isHermitian` (structural test of lines 81-85, then the coefficient comparison).
+                      `Term.isHermitianTol atol rtol` (structural test of lines 81-85, then `np.allclose` decided exactly
+                      over the rationals), `Term.isHermitian` = the same with zero tolerances.
 * `FieldOp`         : list of terms; `add`, `mul` (all pairwise products, `self` outer loop), `adjoint`, `isHermitian`
                       (`True` or `NotImplementedError`), `fields` (first-occurrence order).
 * `FieldOp.asMatrix`: lines 191-234 literally: `clist[i]` = left-nested Kronecker product `kron(kron(1, M₀), M₁)…` with
@@ -140,11 +141,26 @@ namespace Term
 def structHermitian (t : Term) : Bool :=
   (List.zip t.opdesc t.opdesc.reverse).all fun (a, b) => a.field == b.field && a.otype == b.otype.adjoint
 
-/-- `is_hermitian()`: the structural test, then `coeffs` against `coeffs.conj().T`.
-A coefficient array whose shape is not its own reverse is not Hermitian (the comparison is entry-wise; see the
-`fix:` commit in `/repo` – NumPy's broadcasting used to compare, e.g., a `1 × L` array with its `L × 1` transpose).
-Exact equality stands for `np.allclose` (tolerances `1e-8 + 1e-5·|b|`); the harness only sends coefficients for
-which the two coincide. -/
+/-- `|a - b| <= atol + rtol * |b|` over the reals (the test of `np.isclose` / `np.allclose`), decided exactly on
+Gaussian rationals: with `d² = |a-b|²`, `n² = |b|²` and `lhs = d² - atol² - rtol² n²` the inequality holds iff
+`lhs ≤ 0` or `lhs² ≤ 4 atol² rtol² n²` (both sides of the original inequality are non-negative) -/
+def closeTol (atol rtol : Rat) (a b : GQ) : Bool :=
+  let d := a - b
+  let d2 := d.re * d.re + d.im * d.im
+  let n2 := b.re * b.re + b.im * b.im
+  let lhs := d2 - atol * atol - rtol * rtol * n2
+  decide (lhs ≤ 0) || decide (lhs * lhs ≤ 4 * atol * atol * rtol * rtol * n2)
+
+/-- `is_hermitian()`: the structural test, then `np.allclose(coeffs, coeffs.conj().T)` with tolerances `atol`, `rtol`
+(NumPy's defaults are `1e-8`, `1e-5`). A coefficient array whose shape is not its own reverse is not Hermitian (the
+comparison is entry-wise; see the `fix:` commit in `/repo` – NumPy's broadcasting used to compare, e.g., a `1 × L`
+array with its `L × 1` transpose). -/
+def isHermitianTol (atol rtol : Rat) (t : Term) : Bool :=
+  if !t.structHermitian then false
+  else if t.coeffs.shape ≠ t.coeffs.shape.reverse then false
+  else (multiIndices t.coeffs.shape).all fun idx => closeTol atol rtol (t.coeffs.get idx) (t.coeffs.get idx.reverse).conj
+
+/-- the flag with zero tolerances: exact equality of `coeffs` and `coeffs.conj().T` -/
 def isHermitian (t : Term) : Bool :=
   if !t.structHermitian then false
   else if t.coeffs.shape ≠ t.coeffs.shape.reverse then false
@@ -180,6 +196,9 @@ def add (a b : FieldOp) : FieldOp := ⟨a.terms ++ b.terms⟩
 def mul (a b : FieldOp) : FieldOp := ⟨a.terms.flatMap fun t1 => b.terms.map fun t2 => t1.mul t2⟩
 def adjoint (a : FieldOp) : FieldOp := ⟨a.terms.map Term.adjoint⟩
 /-- `is_hermitian()`: `True` if every term is flagged Hermitian, else `NotImplementedError` -/
+def isHermitianTol (atol rtol : Rat) (a : FieldOp) : Except Err Bool :=
+  if a.terms.all (Term.isHermitianTol atol rtol) then .ok true else .error .notImplementedError
+/-- the same with zero tolerances -/
 def isHermitian (a : FieldOp) : Except Err Bool :=
   if a.terms.all Term.isHermitian then .ok true else .error .notImplementedError
 /-- `sum(ops)`: `0 + A₀` is `A₀` (`__radd__`), then `__add__` left to right; `sum([])` is the integer 0 (`none`) -/
